@@ -69,6 +69,7 @@ type builtSchema struct {
 	inputs  []model.Val
 	json    []string
 	specIss []string
+	cold    bool // the next runs start on empty object pools (only set for the sequential reference runs after the workload)
 }
 
 func (b *builtSchema) run(i int, fmtMarker string, lang ...string) *model.Result {
@@ -82,7 +83,7 @@ func (b *builtSchema) run(i int, fmtMarker string, lang ...string) *model.Result
 	default:
 		in = b.inputs[i].Go() // a fresh input value per call: inputs are the caller's own data
 	}
-	x := model.Exec{Mode: b.mode, Formatter: fmtMarker}
+	x := model.Exec{Mode: b.mode, Formatter: fmtMarker, Cold: b.cold}
 	if len(lang) > 0 && lang[0] != "" {
 		x.CtxVals = []model.KV{{K: i18n.LangKey, V: model.Str(lang[0])}}
 	}
@@ -120,7 +121,7 @@ installed:
 				in = cs.Input.Go()
 			}
 			spec := model.Spec(s.Root, model.SpecCfg{Mode: s.Mode}, in, model.DeepCopy(dest.Elem()))
-			if spec.Unknown != "" || (k < len(s.JSON) && s.JSON[k] != "") {
+			if spec.Unknown != "" || spec.PostFailed || (k < len(s.JSON) && s.JSON[k] != "") {
 				b.specIss = append(b.specIss, "?")
 			} else {
 				b.specIss = append(b.specIss, fmt.Sprint(spec.Issues))
@@ -227,6 +228,7 @@ installed:
 	// every concurrent result must also equal what the call returns running alone (afterwards, sequentially)
 	for k, got := range seen {
 		f, l, _ := strings.Cut(k.fmt, "|")
+		bs[k.s].cold = true // alone means alone: nothing any other call left behind in the object pools
 		res := bs[k.s].run(k.i, f, l)
 		if alone := observe(res); alone != got {
 			return hh.Fail("schema #%d input #%d [%s]: concurrent calls returned\n  %s\nrunning alone it returns\n  %s", k.s, k.i, bs[k.s].mode, got, alone)
@@ -248,6 +250,18 @@ installed:
 		}
 	}
 	v := hh.Verdict{Nontrivial: shared > 0, Classes: []string{fmt.Sprintf("shared-schemas:%d", min(shared, 8)), fmt.Sprintf("goroutines:%d", len(c.Plans))}}
+	for _, s := range c.Schemas {
+		failing := false
+		s.Root.Walk(func(n *model.Node) {
+			for _, p := range n.Posts {
+				failing = failing || p.Behaviour == "error"
+			}
+		})
+		if failing {
+			v.Classes = append(v.Classes, "schema-with-failing-posttransform")
+			break
+		}
+	}
 	return v
 }
 
@@ -261,8 +275,27 @@ func genC08(rt *rapid.T, thorough bool) c08Case {
 		cfg.PPost, cfg.PCatch, cfg.PVary, cfg.PAbsent, cfg.PJunk, cfg.PTestSat, cfg.POpts = 0.15, 0.3, 0.4, 0.15, 0.08, 0.6, 0.15
 		cfg.NoDataTests = true
 		cfg.PLong = rapid.SampledFrom([]float64{0, 0.05, 0.2}).Draw(rt, "plong") // long slices: growth paths of caches and buffers
+		failingPost := rapid.IntRange(0, 3).Draw(rt, "failingpost") == 0
+		if failingPost {
+			// a schema whose only possible issue is the error of ONE PostTransform (no tests, nothing required, valid
+			// inputs): its result is determined, whatever the field order; the issue is built from the contexts
+			// the other goroutines keep recycling
+			cfg.PPost, cfg.PCatch, cfg.PReq, cfg.PDefault, cfg.PJunk, cfg.PAbsent, cfg.PPre, cfg.PCoercer = 0, 0, 0, 0, 0, 0.1, 0, 0
+			cfg.MaxTests, cfg.NoFuncTests, cfg.NoCustom, cfg.PLong = 0, true, true, 0
+			cfg.RootKinds = []string{model.KStruct, model.KStruct, model.KSlice}
+		}
 		g := model.NewGen(rt, cfg)
 		root := g.GenNode(cfg.MaxDepth, true)
+		if failingPost {
+			var nodes []*model.Node
+			root.Walk(func(n *model.Node) {
+				if n.Kind != model.KPre {
+					nodes = append(nodes, n)
+				}
+			})
+			at := nodes[rapid.IntRange(0, len(nodes)-1).Draw(rt, "postat")]
+			at.Posts = []model.PostSpec{{Behaviour: "error"}}
+		}
 		root.Number()
 		s := c08Schema{Root: root, Mode: mode}
 		for k, n := 0, rapid.IntRange(2, 5).Draw(rt, "ninputs"); k < n; k++ {
@@ -274,7 +307,16 @@ func genC08(rt *rapid.T, thorough bool) c08Case {
 				s.Inputs = append(s.Inputs, typed)
 			}
 		}
-		if mode == "parse" && root.Kind == model.KStruct && rapid.IntRange(0, 2).Draw(rt, "json") == 0 {
+		if failingPost {
+			for _, in := range s.Inputs {
+				if !model.OnlyPostFailure(root, mode, in) {
+					// something else can produce an issue for this input: which PostTransforms still run would depend on the visit order
+					root.Walk(func(n *model.Node) { n.Posts = nil })
+					break
+				}
+			}
+		}
+		if mode == "parse" && root.Kind == model.KStruct && !failingPost && rapid.IntRange(0, 2).Draw(rt, "json") == 0 {
 			// the same inputs as JSON documents through zjson, plus undecodable ones
 			s.JSON = make([]string, len(s.Inputs))
 			for k := range s.Inputs {
@@ -346,7 +388,7 @@ func stripGatedPosts(c *c08Case) {
 				in = s.Inputs[k].Go()
 			}
 			// decided by the specification, without running zog (no warm-up of lazily initialised state)
-			if spec := model.Spec(s.Root, model.SpecCfg{Mode: s.Mode}, in, model.DeepCopy(dest.Elem())); spec.Unknown != "" || len(spec.Issues) > 0 || len(s.JSON) > 0 {
+			if spec := model.Spec(s.Root, model.SpecCfg{Mode: s.Mode}, in, model.DeepCopy(dest.Elem())); spec.Unknown != "" || (len(spec.Issues) > 0 && !(spec.PostFailed && len(spec.Issues) == 1)) || len(s.JSON) > 0 {
 				issues = true
 			}
 		}
@@ -358,10 +400,10 @@ func stripGatedPosts(c *c08Case) {
 
 func TestC08(t *testing.T) {
 	h := hh.Start(t, "C08",
-		"cases = workloads: 3-8 shared schema objects (all kinds, Catch, own-destination PostTransforms, struct-level tests) with 2-5 inputs each; 8-32 goroutines start together and each runs a generated plan of 5-25 (schema, input, collect-own-result through Collect* or Sanitize*AndCollect?, per-call formatter?, language named in the context when the workload runs with i18n installed) steps for 6 (thorough 20) rounds against the SHARED schema objects with private inputs and destinations; binary built with -race; non-trivial = some schema object was used by >=2 goroutines in the workload; distinct = FNV-1a of the case JSON",
+		"cases = workloads: 3-8 shared schema objects (all kinds, Catch, own-destination PostTransforms, struct-level tests; a quarter of them test-free schemas with exactly one PostTransform that returns an error) with 2-5 inputs each; 8-32 goroutines start together and each runs a generated plan of 5-25 (schema, input, collect-own-result through Collect* or Sanitize*AndCollect?, per-call formatter?, language named in the context when the workload runs with i18n installed) steps for 6 (thorough 20) rounds against the SHARED schema objects with private inputs and destinations; binary built with -race; non-trivial = some schema object was used by >=2 goroutines in the workload; distinct = FNV-1a of the case JSON",
 		"the goroutines start on COLD library state (expected issues come from the executable specification, not from a sequential warm-up run): every concurrent call must (a) report the issues the specification gives for it, (b) agree with every other concurrent call of the same schema and input, (c) equal what the same call returns running alone afterwards (issues incl. messages, destination); any report of the Go race detector during the run is a violation (detected by the driver from the process output). Lists marked long grow by 8 elements from workload to workload so that lazily grown shared state is extended while goroutines run",
 		"random schedules only: the harness does not own the scheduler; a schedule-dependent failure is reported with the workload, not with a replayable interleaving",
-		"PostTransforms are kept only on schemas none of whose inputs produce issues (otherwise their effect is visit-order dependent by the documented gating)")
+		"PostTransforms are kept only on schemas none of whose inputs produce issues, or whose only issue is the error of their single failing PostTransform (otherwise their effect is visit-order dependent by the documented gating)")
 	defer h.Finish()
 	hh.Sub(h, "workloads", h.N(100, 300), func(rt *rapid.T) c08Case {
 		c := genC08(rt, h.Thorough())
